@@ -290,6 +290,9 @@ ResolveSane == phase = "done" =>
 \* results of the real forComponents() for every wall minute of [w0, w1).
 WallObs == JsonDeserialize(IOEnv.TZ_WALL)
 WallPolicy == IOEnv.TZ_POLICY
+\* "raw": the recorded offset is the one *selected* for the wall time (before normalisation), so only the
+\* instant (shift) is judged; "norm": the normalised <<shift, offset>> of ZonedDateTime::forComponents
+WallRaw == IOEnv.TZ_WALLMODE = "raw"
 \* points at which a piece [a, b) with constant value must be checked: its start and every breakpoint inside
 CheckPoints(P, a, b) == {a} \cup {w \in WallBreaks(P) : Lt(a, w) /\ Lt(w, b)}
 WindowBad(P, win) ==
@@ -298,7 +301,8 @@ WindowBad(P, win) ==
    IN {<<j, w>> \in UNION {{<<j, w>> : w \in CheckPoints(P, <<ps[j][1], ps[j][2]>>,
                                         IF j < n THEN <<ps[j + 1][1], ps[j + 1][2]>> ELSE <<win.w1[1], win.w1[2]>>)} : j \in 1..n} :
           \/ ps[j][5] # 0
-          \/ <<ps[j][3], ps[j][4]>> \notin Allowed(P, w, WallPolicy)}
+          \/ (IF WallRaw THEN ps[j][3] \notin {a[1] : a \in Allowed(P, w, WallPolicy)}
+                         ELSE <<ps[j][3], ps[j][4]>> \notin Allowed(P, w, WallPolicy))}
 WallConforms == phase = "done" =>
    LET name == ZonesSeq[z].name
        P == Pieces
